@@ -127,7 +127,11 @@ def fam_c08(depth=2, wraps=None):
 
 TRUTH_POOL = [("nil", NIL), ("true", B(True)), ("false", B(False)), ("0", I(0)), ("1", I(1)), ("-1", I(-1)),
               ("0.0", F("0", "0.0")), ("0.5", F("0.5", "0.5")), ("empty", S("")), ("x", S("x")),
-              ("[]", L()), ("[0]", L(I(0))), ("{}", M()), ("{k}", M((S("k"), I(1))))]
+              ("[]", L()), ("[0]", L(I(0))), ("{}", M()), ("{k}", M((S("k"), I(1)))),
+              # strings that are numerals: zero however it is written is false, anything else true
+              ("s-0", S("-0")), ("s+0", S("+0")), ("s00", S("00")), ("s0.00", S("0.00")), ("s.0", S(".0")), ("s0.", S("0.")), ("s-0.0", S("-0.0")), ("s+0.0", S("+0.0")), ("s0e0", S("0e0")), ("s-.0", S("-.0")),
+              ("s0", S("0")), ("s0.0", S("0.0")), ("sfalse", S("false")), ("sF", S("F")), ("s-1", S("-1")), ("s+1", S("+1")), ("s0.1", S("0.1")), ("s-0.1", S("-0.1")), ("s.5", S(".5")), ("s00x", S("00x")),
+              ("s-", S("-")), ("s0 ", S("0 ")), ("strue", S("true")), ("sT", S("T")), ("sno", S("no"))]
 
 
 def fam_truth():
@@ -235,6 +239,22 @@ def fam_forin():
         out.append({"id": "c08-forin-map2-" + nm, "unordered": True, "prog": [Let("n", I(0)), ForIn(["k", "v"], m, [P(Id("k")), Let("n", Bin("+", Id("n"), I(1)))]), P(9), Ret(Id("n"))]})
         out.append({"id": "c08-forin-map1-" + nm, "unordered": True, "prog": [Let("n", I(0)), ForIn(["k"], m, [P(Id("k")), Let("n", Bin("+", Id("n"), I(1)))]), P(9), Ret(Id("n"))]})
         out.append({"id": "c08-forin-list-" + nm, "prog": [Let("n", I(0)), ForIn(["v"], L(*vals), [P(Id("v")), Let("n", Bin("+", Id("n"), I(1)))]), P(9), Ret(Id("n"))]})
+    # break / continue / return in a loop over a MAP (counters: independent of the order of the entries), alone and nested in / around other loops
+    m3 = M((S("a"), I(1)), (S("b"), I(2)), (S("c"), I(3)))
+    for vs in (["k"], ["k", "v"]):
+        vn = "kv" if len(vs) == 2 else "k"
+        cnt = Let("n", Bin("+", Id("n"), I(1)))
+        out.append({"id": "c08-formap-brk-" + vn, "prog": [Let("n", I(0)), ForIn(vs, m3, [cnt, BRK, P(8)]), P(Id("n")), Ret(I(0))]})
+        out.append({"id": "c08-formap-brk-if-" + vn, "prog": [Let("n", I(0)), ForIn(vs, m3, [cnt, If(Bin("==", Id("n"), I(2)), [BRK])]), P(Id("n")), Ret(I(0))]})
+        out.append({"id": "c08-formap-cnt-" + vn, "prog": [Let("n", I(0)), Let("q", I(0)), ForIn(vs, m3, [cnt, CNT, Let("q", I(9))]), P(Id("n")), P(Id("q")), Ret(I(0))]})
+        out.append({"id": "c08-formap-ret-" + vn, "prog": [Let("n", I(0)), FnStmt("f", [], [ForIn(vs, m3, [cnt, Ret(I(5))]), Ret(I(6))]), P(Call("f")), P(Id("n")), Ret(I(0))]})
+        out.append({"id": "c08-formap-thr-" + vn, "prog": [Let("n", I(0)), Try([ForIn(vs, m3, [cnt, Throw(S("t"))])], "e", [P(Id("e"))]), P(Id("n")), Ret(I(0))]})
+        out.append({"id": "c08-formap-brk-nested-in-list-" + vn, "prog": [Let("n", I(0)), ForIn("i", L(I(1), I(2), I(3), I(4)), [ForIn(vs, m3, [cnt, BRK])]), P(Id("n")), Ret(I(0))]})
+        out.append({"id": "c08-formap-brk-nested-in-map-" + vn, "prog": [Let("n", I(0)), ForIn(["j"], m3, [ForIn(vs, m3, [cnt, BRK])]), P(Id("n")), Ret(I(0))]})
+        out.append({"id": "c08-formap-inner-list-brk-" + vn, "prog": [Let("n", I(0)), ForIn(vs, m3, [ForIn("i", L(I(1), I(2)), [cnt, BRK])]), P(Id("n")), Ret(I(0))]})
+        out.append({"id": "c08-formap-brk-in-switch-" + vn, "prog": [Let("n", I(0)), ForIn(vs, m3, [cnt, Switch(I(1), [([I(1)], [BRK])]), P(8)]), P(Id("n")), Ret(I(0))]})
+        out.append({"id": "c08-formap-brk-in-try-" + vn, "prog": [Let("n", I(0)), ForIn(vs, m3, [cnt, Try([BRK], "e", [P(60)])]), P(Id("n")), Ret(I(0))]})
+        out.append({"id": "c08-formap-brk-while-" + vn, "prog": [Let("n", I(0)), Let("w", I(0)), While(Bin("<", Id("w"), I(2)), [Let("w", Bin("+", Id("w"), I(1))), ForIn(vs, m3, [cnt, BRK])]), P(Id("n")), Ret(I(0))]})
     # loop conditions of every truthiness class, negative numbers included (anything but zero is true)
     for nm, c, truthy in (("neg", I(-1), True), ("negbig", I(-4096), True), ("negflt", F("-0.5", "-0.5"), True), ("zero", I(0), False), ("pos", I(2), True)):
         out.append({"id": "c08-loopcond-while-" + nm, "prog": [Let("n", I(0)), While(c, [P(1), Let("n", Bin("+", Id("n"), I(1))), If(Bin(">=", Id("n"), I(2)), [BRK])]), P(9), Ret(Id("n"))]})
